@@ -3,7 +3,7 @@
 // under the interpreter of coq/Model/C04_dec.v.  The implementation side is StringifiedMessage.MarshalNBT into a
 // bytes.Buffer: the payload written, or err, or panic.  The float oracle of the interpreter (strconv.ParseFloat) is
 // a table computed here for every run of unquoted-string characters of the text - whole, without its last character,
-// and its prefixes (all of them for runs up to 200 bytes) - for both bit sizes.  The texts are converted one after the other in this process, rejected ones between
+// and its prefixes (all of them for runs up to 200 bytes, those around every byte that is not a digit for longer runs) - for both bit sizes.  The texts are converted one after the other in this process, rejected ones between
 // accepted ones: a conversion that depends on what was converted before disagrees with the interpretation.
 package main
 
@@ -52,8 +52,12 @@ func floatTable(text []byte) string {
 		}
 		add(text[i:j])
 		add(text[i : j-1])
-		for k := i + 1; k < j && (j-i <= 200 || k <= i+32); k++ { // the scanner may end a number before the run ends
-			add(text[i:k])
+		for k := i + 1; k < j; k++ { // the scanner may end a number before the run ends: at a byte that is not a digit
+			if j-i <= 200 || text[k] < '0' || text[k] > '9' {
+				add(text[i:k])
+				add(text[i : k-1])
+				add(text[i : k+1])
+			}
 		}
 		i = j
 	}
